@@ -192,8 +192,16 @@ pub fn mk_date(z: i64) -> NaiveDate {
 pub fn mk_time(secs: u32, nanos: u32) -> NaiveTime {
     NaiveTime::from_num_seconds_from_midnight_opt(secs, nanos).unwrap_or_else(|| panic!("harness: from_num_seconds_from_midnight_opt({},{}) refused", secs, nanos))
 }
+/// a time with a leap-second representation on any second (only second 59 is constructible directly)
+pub fn mk_time_any(secs: u32, nanos: u32) -> NaiveTime {
+    if nanos < 1_000_000_000 || secs % 60 == 59 {
+        mk_time(secs, nanos)
+    } else {
+        mk_time(secs, 0).with_nanosecond(nanos).unwrap_or_else(|| panic!("harness: with_nanosecond({}) refused", nanos))
+    }
+}
 pub fn mk_ndt(z: i64, secs: u32, nanos: u32) -> NaiveDateTime {
-    mk_date(z).and_time(mk_time(secs, nanos))
+    mk_date(z).and_time(mk_time_any(secs, nanos))
 }
 /// from a non-leap instant in ns since the epoch
 pub fn mk_ndt_inst(inst: i128) -> NaiveDateTime {
